@@ -266,7 +266,16 @@ func (h *vC05Harness) rel(s uint64) int {
 	return int(s - h.base)
 }
 
-// idOf maps a real revision id to the model's revision number: initial revisions 1..n, writer w's revision 10+w
+// wid is the model's number of the revision writer w creates: 10+w for put / push; a DeleteDoc revision is determined by its
+// parent alone (constant body), so two writers deleting the same parent create the same revision: 100+parent.
+func (w *vC05Writer) wid() int {
+	if w.kind == "del" {
+		return 100 + w.parg
+	}
+	return 10 + w.id
+}
+
+// idOf maps a real revision id to the model's revision number: initial revisions 1..n, writer w's revision wid()
 // (pushed id, returned id, or - for a revision nobody returned - the writer whose body digests to it), else 90+.
 func (h *vC05Harness) idOf(rev string, tree RevTree) int {
 	if rev == "" {
@@ -278,7 +287,10 @@ func (h *vC05Harness) idOf(rev string, tree RevTree) int {
 	if info, ok := tree[rev]; ok {
 		gen, _ := ParseRevID(h.ctx, rev)
 		for _, w := range h.ws {
-			if (w.kind != "put" && w.kind != "del") || h.revStr[10+w.id] != "" {
+			if (w.kind != "put" && w.kind != "del") || (w.kind == "put" && h.revStr[w.wid()] != "") {
+				continue
+			}
+			if w.kind == "del" && h.revID[info.Parent] != w.parg {
 				continue
 			}
 			cands := []Body{}
@@ -290,9 +302,9 @@ func (h *vC05Harness) idOf(rev string, tree RevTree) int {
 			for _, c := range cands {
 				cb, _ := base.JSONMarshalCanonical(c)
 				if CreateRevIDWithBytes(gen, info.Parent, cb) == rev {
-					h.revID[rev] = 10 + w.id
-					h.revStr[10+w.id] = rev
-					return 10 + w.id
+					h.revID[rev] = w.wid()
+					h.revStr[w.wid()] = rev
+					return w.wid()
 				}
 			}
 		}
@@ -378,7 +390,7 @@ func (h *vC05Harness) snapshot(o vObj) vObj {
 					if x, ok := h.revID[w.retRev]; ok {
 						id = x
 					} else {
-						id = 10 + w.id
+						id = w.wid()
 						h.revID[w.retRev] = id
 						h.revStr[id] = w.retRev
 					}
@@ -404,9 +416,9 @@ func (h *vC05Harness) snapshot(o vObj) vObj {
 // registerReturn makes a returned revision id known before the snapshot is taken.
 func (h *vC05Harness) registerReturn(w *vC05Writer) {
 	if w.retErr == nil && w.retRev != "" {
-		if _, ok := h.revID[w.retRev]; !ok && h.revStr[10+w.id] == "" {
-			h.revID[w.retRev] = 10 + w.id
-			h.revStr[10+w.id] = w.retRev
+		if _, ok := h.revID[w.retRev]; !ok && (w.kind == "del" || h.revStr[w.wid()] == "") {
+			h.revID[w.retRev] = w.wid()
+			h.revStr[w.wid()] = w.retRev
 		}
 	}
 }
